@@ -158,7 +158,9 @@ impl Model {
     }
     /// settings that only a config *file* (`-c` / typegen.json) can carry
     pub fn needs_file_only_settings(&self) -> bool {
-        self.has(E_PARAM_CASE) || self.has(E_FIELD_CASE)
+        // the visualisation is requested by flag in plain mode and through the configuration
+        // file in zod mode, so that both ways of asking for it occur in short histories
+        self.has(E_PARAM_CASE) || self.has(E_FIELD_CASE) || (self.has(E_VISUALIZE) && self.has(E_MODE))
     }
     pub fn param_case(&self) -> &'static str {
         if self.has(E_PARAM_CASE) {
